@@ -7,7 +7,7 @@
 //
 //	-types                      print the message types registered in fsm's `commands` map (hook) and
 //	                            which generator kinds cover each; exit 2 if a registered type has none
-//	-gen -seed N -tier T -out F write histories (JSON lines): encoded Raft log entries, generated from
+//	-gen -seed N -tier T [-now-unix U] -out F write histories (JSON lines): encoded Raft log entries, generated from
 //	                            the one seed against a live FSM so that most commands are valid
 //	-apply F -out G [-name X] [-plant-delays] [-sleep-ms N]
 //	                            REPLICA mode: for every history build a fresh real fsm.FSM, apply the
@@ -45,12 +45,8 @@ import (
 	"github.com/hashicorp/consul/agent/consul/state"
 	"github.com/hashicorp/consul/agent/structs"
 	raftstorage "github.com/hashicorp/consul/internal/storage/raft"
-	"github.com/hashicorp/consul/lib/stringslice"
 	"github.com/hashicorp/consul/proto-public/pbresource"
-	"github.com/hashicorp/consul/types"
 )
-
-var _ = types.NodeID("")
 
 // ---------------------------------------------------------------- log entries and observations
 
@@ -138,10 +134,10 @@ type Obs struct {
 
 type nullHandle struct{}
 
-func (nullHandle) Apply([]byte) (any, error)                   { return nil, fmt.Errorf("no raft") }
-func (nullHandle) IsLeader() bool                               { return false }
+func (nullHandle) Apply([]byte) (any, error)                     { return nil, fmt.Errorf("no raft") }
+func (nullHandle) IsLeader() bool                                { return false }
 func (nullHandle) EnsureStrongConsistency(context.Context) error { return fmt.Errorf("no raft") }
-func (nullHandle) DialLeader() (*grpc.ClientConn, error)        { return nil, fmt.Errorf("no raft") }
+func (nullHandle) DialLeader() (*grpc.ClientConn, error)         { return nil, fmt.Errorf("no raft") }
 
 type replica struct {
 	f       *fsm.FSM
@@ -242,8 +238,6 @@ func sortedVIPResponse(v structs.AssignServiceManualVIPsResponse) structs.Assign
 	return c
 }
 
-var _ = stringslice.Contains
-
 func runHistory(h *History, full bool, plant bool) Obs {
 	r := newReplica()
 	defer r.close()
@@ -342,10 +336,12 @@ func main() {
 	plant := flag.Bool("plant-delays", false, "replica mode: start with lock delays planted on every key (local state differs)")
 	sleepMs := flag.Int("sleep-ms", 0, "replica mode: sleep before starting (different wall-clock)")
 	name := flag.String("name", "", "replica name (informational)")
+	nowUnix := flag.Int64("now-unix", 0, "generator: the real time (token expiries are placed within the minute after it)")
 	typesMode := flag.Bool("types", false, "print registered message types and generator coverage")
 	replay := flag.String("replay", "", "replay file {entries:[...]}")
 	flag.Parse()
 	_ = name
+	wallNow = *nowUnix
 	debug.SetGCPercent(400)
 	initEnv()
 
